@@ -428,6 +428,49 @@ def run_empty_reads(chk, spec):
 	del others
 
 
+def run_result_then_flood(chk, spec):
+	"""an operation result is kept, and brand-new vectors of its length (and the neighbouring lengths) are created and written straight away: whatever
+	storage the operation built and dropped on the way, none of its addresses still counts as owned"""
+	import warnings
+	from datetime import date, datetime
+	n = spec["n"]
+	src = {"int-gap": [1, None, 3, 4, 5][:n] if n > 1 else [None], "int": list(range(1, n + 1)), "date-gap": ([date(2020, 1, 1), None] + [date(2020, 1, 2)] * n)[:n], "float-gap": ([1.5, None] + [2.5] * n)[:n], "str": [f"s{i}" for i in range(n)]}[spec["kind"]]
+	ops = {"fillna-promoting": lambda v: v.fillna({"int-gap": 2.5, "int": 2.5, "date-gap": datetime(2020, 1, 1, 5), "float-gap": 1j, "str": "x"}[spec["kind"]]), "fillna-same": lambda v: v.fillna(v._underlying[0] if v._underlying[0] is not None else 0),
+		"cast": lambda v: v.cast(str), "to_object": lambda v: v.to_object(), "dropna": lambda v: v.dropna(), "lshift-wider": lambda v: v << [2.5], "sort": lambda v: v.sort_by(), "copy": lambda v: v.copy(), "plus": lambda v: v + v,
+		"isna": lambda v: v.isna(), "slice": lambda v: v[0:], "mask": lambda v: v[[True] * n], "promote-copy-by-write": lambda v: (lambda c: (c.__setitem__(0, None), c)[1])(v.copy()), "table-column": lambda v: Table({"a": v, "b": list(range(n))}).cols()[0],
+		"table-fillna-column": lambda v: (Table({"a": v, "b": list(range(n))})["a"]).fillna(0) if spec["kind"] != "str" else v.copy()}
+	with warnings.catch_warnings():
+		warnings.simplefilter("ignore")
+		v = Vector(list(src), name="v")
+		try:
+			r = ops[spec["op"]](v)
+			failed = False
+		except Exception:
+			r = None
+			failed = True
+		fresh = []
+		refused = None
+		for size in (n, n + 1, max(n - 1, 1), max(len(r._underlying), 1) if r is not None and hasattr(r, "_underlying") else n):
+			for i in range(spec["flood"]):
+				f = Vector([i] * size)
+				fresh.append(f)
+				try:
+					f[0] = -1
+				except AliasError:
+					refused = size
+					break
+			if refused is not None:
+				break
+	chk.judged("derived", ("result-then-flood", spec["op"], spec["kind"], n, failed))
+	if refused is not None:
+		chk.fail("a write is refused with AliasError only while another live vector really shares that storage", f"alias/spurious-refusal/fresh-vector-after-{spec['op']}", f"{spec!r}: a brand-new vector of {refused} cells was refused its first write while the result of {spec['op']} was alive")
+		return
+	if r is not None and hasattr(r, "_underlying") and len(r._underlying):
+		w = call(r.__setitem__, 0, r._underlying[-1])
+		if not w.ok and isinstance(w.exc, AliasError):
+			chk.fail("operation results share storage with no other live vector and are always writable", f"alias/spurious-refusal/result-of-{spec['op']}", f"{spec!r}: {w!r}")
+
+
 def run_iterator_of_vectors(chk, spec):
 	"""a table built from vectors that arrive in a one-shot iterator (where that is accepted at all) holds columns of its own, like one built from a list"""
 	import warnings
@@ -561,7 +604,7 @@ def run_promote_with_holder(chk, spec):
 
 DERIVED_OPS = ["empty-left-lshift-vector", "empty-left-lshift-tuple", "typed-empty-lshift-vector", "empty-mask-lshift-vector", "lshift-empty-vector", "copy", "slice-full", "slice-0-n", "slice-0-big", "slice-neg", "slice-step1", "mask-all", "mask-all-vector", "T", "lshift-empty", "rlshift-empty", "lshift-empty-tuple",
 	"sort", "fillna", "dropna", "pos", "cast-same", "to_object", "index-all", "table-column", "table-column-slice", "unique", "copy-of-copy", "rshift-column", "lshift-none-then-slice"]
-RUNNERS = {"empty_reads": run_empty_reads, "iterator_of_vectors": run_iterator_of_vectors, "failed_call_then_writes": run_failed_call_then_writes, "empty_writes": run_empty_writes, "clone_writes": run_clone_writes, "twins": run_twins, "table_own_columns": run_table_own_columns, "promote_with_holder": run_promote_with_holder, "table_sharing": run_table_sharing, "history": run_history, "burst": run_burst, "sharing": run_sharing, "derived": run_derived}
+RUNNERS = {"result_then_flood": run_result_then_flood, "empty_reads": run_empty_reads, "iterator_of_vectors": run_iterator_of_vectors, "failed_call_then_writes": run_failed_call_then_writes, "empty_writes": run_empty_writes, "clone_writes": run_clone_writes, "twins": run_twins, "table_own_columns": run_table_own_columns, "promote_with_holder": run_promote_with_holder, "table_sharing": run_table_sharing, "history": run_history, "burst": run_burst, "sharing": run_sharing, "derived": run_derived}
 
 
 def setup(chk):
@@ -589,6 +632,10 @@ def run(chk):
 	for maker in ("slice", "mask", "typed", "typed-list", "dropna", "float-slice", "date-slice", "str-mask", "table-column-emptied"):
 		for read in ("fillna-float", "fillna-complex", "fillna-datetime", "fillna-same", "fillna-none", "lshift-wider", "plus", "cast", "copy", "sort", "isna", "to_object"):
 			chk.case("empty_reads", {"maker": maker, "read": read}, "empty-reads")
+	for op in ("fillna-promoting", "fillna-same", "cast", "to_object", "dropna", "lshift-wider", "sort", "copy", "plus", "isna", "slice", "mask", "promote-copy-by-write", "table-column", "table-fillna-column"):
+		for kind in ("int-gap", "int", "date-gap", "float-gap", "str"):
+			for n in (1, 2, 3, 5):
+				chk.case("result_then_flood", {"op": op, "kind": kind, "n": n, "flood": 40 if chk.quick() else 200}, "result-then-flood")
 	for form in ("Vector(generator)", "Table(generator)", "Vector(iter)", "Table(iter)", "Vector(map)", "Table(zip-first)"):
 		for n in (1, 2, 3):
 			chk.case("iterator_of_vectors", {"form": form, "n": n}, "iterator-of-vectors")
